@@ -83,6 +83,9 @@ func (r *rec) do(th int, c call, val int) {
 		r.m.Delete(c.k)
 	case "Range":
 		r.m.Range(func(k, v int) bool {
+			if k >= lin.Keys {
+				return true // crowd keys: outside the modelled universe
+			}
 			if rangeSeen[k] != 0 {
 				dup = true
 			}
@@ -164,7 +167,12 @@ func scenario(lay layout, prog [][]call, bound, raceBound int) schk.Scenario {
 				all = append(all, lin.Op{Kind: "Load", Key: k, Val: v, Ok: ok, Thread: 50 + k, Inv: last + 10 + 4*k, Ret: last + 11 + 4*k})
 			}
 			seen := [lin.Keys]int{}
-			r.m.Range(func(k, v int) bool { seen[k] = v; return true })
+			r.m.Range(func(k, v int) bool {
+				if k < lin.Keys {
+					seen[k] = v
+				}
+				return true
+			})
 			for k := 0; k < lin.Keys; k++ {
 				all = append(all, lin.Op{Kind: "RangeObs", Key: k, Val: seen[k], Ok: seen[k] != 0, Thread: 60 + k, Inv: last + 100, Ret: last + 101})
 			}
@@ -225,6 +233,47 @@ func main() {
 						}
 						scs = append(scs, scenario(li, [][]call{{a1, a2}, {b1, b2}}, ev.Pick(r, 2, 3), -2))
 					}
+				}
+			}
+		}
+	}
+	// a third key: three threads on three different keys plus Range / same-key conflicts
+	third := []call{{"Store", 2}, {"Load", 2}, {"LoadOrStore", 2}, {"LoadAndDelete", 2}}
+	for n, li := range some {
+		if !r.Thorough() && n%2 == 1 {
+			continue
+		}
+		for _, c := range third {
+			for _, ab := range [][2]call{{{"Store", 0}, {"Store", 1}}, {{"LoadOrStore", 0}, {"Range", 0}}, {{"LoadAndDelete", 0}, {"Load", 1}}, {{"Store", 2}, {"Range", 0}}, {{"LoadAndDelete", 2}, {"LoadOrStore", 2}}} {
+				scs = append(scs, scenario(li, [][]call{{ab[0]}, {ab[1]}, {c}}, ev.Pick(r, 2, 3), -2))
+			}
+		}
+	}
+	// crowded maps: the same small layouts inside a map that already holds 8..64 other keys, stored
+	// and either promoted to the read map or still in the dirty map (size-dependent promotion
+	// thresholds, map growth)
+	for _, crowd := range []int{8, 16, 33, 64} {
+		for _, promoted := range []bool{true, false} {
+			for n, li := range some {
+				if n%3 != 0 {
+					continue
+				}
+				cl := layout{name: fmt.Sprintf("crowd%d/promoted=%v/%s", crowd, promoted, li.name)}
+				for k := 0; k < crowd; k++ {
+					cl.pre = append(cl.pre, seqmc.Op{Name: "Store", A: 100 + k, B: 1})
+				}
+				if promoted {
+					cl.pre = append(cl.pre, seqmc.Op{Name: "Range"})
+				}
+				cl.pre = append(cl.pre, li.pre...)
+				for _, pp := range [][][]call{
+					{{{"Store", 0}}, {{"Load", 0}}},
+					{{{"LoadOrStore", 0}}, {{"LoadAndDelete", 0}}},
+					{{{"Store", 1}}, {{"Range", 0}}},
+					{{{"Load", 2}, {"Load", 2}}, {{"Store", 0}, {"Load", 0}}},
+					{{{"LoadAndDelete", 0}, {"Store", 0}}, {{"Store", 1}, {"Load", 0}}},
+				} {
+					scs = append(scs, scenario(cl, pp, ev.Pick(r, 2, 3), -2))
 				}
 			}
 		}
